@@ -219,3 +219,9 @@ package stdlib_contracts
 //@ pure
 //@ requires[nopanic] x != nil
 //@ ensures result >= 0 && (x.v != 0 ==> (result >= 255) == (mod(abs(x.v), two255()) == 0)) && (x.v != 0 && abs(x.v) < two256() ==> result <= 255)
+
+//@ func (*Int).CmpAbs
+//@ assumed
+//@ pure
+//@ requires[nopanic] x != nil && y != nil
+//@ ensures result == ite(abs(x.v) > abs(y.v), 1, ite(abs(x.v) < abs(y.v), -1, 0))
